@@ -529,6 +529,10 @@ impl<S: Storage> Builder<S> {
             .register(id, span.clone(), output_row_counter.clone());
 
         let (tx, rx) = async_broadcast::broadcast(16);
+        // Deactivate the initial receiver before the task is spawned. Otherwise chunks broadcast
+        // before `deactivate` are dropped together with this receiver and subscribers miss them.
+        // With no active receiver, `broadcast` waits until a subscriber is activated.
+        let rx = rx.deactivate();
         let handle = tokio::task::Builder::default()
             .name(&format!("{id}.{name}"))
             .spawn(
@@ -549,7 +553,7 @@ impl<S: Storage> Builder<S> {
             .expect("failed to spawn task");
 
         StreamSubscriber {
-            rx: rx.deactivate(),
+            rx,
             handle: Arc::new(AbortOnDropHandle(handle)),
         }
     }
